@@ -26,6 +26,7 @@ type E struct {
 func (e *E) Error() string                { return fmt.Sprintf("%v: %v", e.Path, e.Err) }
 func (e *E) Unwrap() error                { return e.Err }
 func (e *E) VerifPath() ([]string, error) { return e.Path, e.Err }
+func (e *E) VerifPkg() string             { return "werr" }
 
 func Wrap(err error, path ...Element) error {
 	p := make([]string, len(path))
@@ -367,7 +368,7 @@ func C07Scenarios(tier string) []*Scenario {
 	if tier == "thorough" {
 		depth = 3
 	}
-	var out []*Scenario
+	out := FallibleKindScenarios(tier)
 	n := 50000
 	for _, form := range c06Forms {
 		if !form.fallible {
@@ -450,6 +451,112 @@ func MapFuncScenarios() []*Scenario {
 		for _, pf := range [][2]string{{"A", "int"}, {"B", "int"}, {"N", "ptr-struct"}, {".", "struct"}, {".", "ptr-struct"}, {"", "no-source"}, {"N.A", "int"}, {"N.N", "ptr-struct"}, {"I.X", "int"}, {"A", "struct"}} {
 			n++
 			out = append(out, buildMapFunc(fmt.Sprintf("%05d", n), shape, pf[0], pf[1]))
+		}
+	}
+	return out
+}
+
+// ---- C07: other kinds of fallible sites (map|FUNC with error, struct-method source with error, default FUNC with
+// error, enum @error) in a struct below each nesting, under the three wrapping modes ----
+
+func buildFallibleKind(id string, kind string, nest []nesting, wrapMode string) *Scenario {
+	sc := &Scenario{ID: "J" + id, PropGen: "C07", PropVal: "C07", Test: "Convert", Funcs: map[string]string{},
+		Desc: map[string]any{"wrap": wrapMode}}
+	conv := &model.Converter{OutPkg: "conv/generated", LitPkg: "conv"}
+	sc.Conv = conv
+	var nestNames []string
+	for _, n := range nest {
+		nestNames = append(nestNames, n.name)
+	}
+	sc.Desc["class"] = fmt.Sprintf("fallible=%s nest=%s wrap=%s", kind, strings.Join(nestNames, ">"), wrapMode)
+	// leaf pair with a declared method Leaf carrying the fallible site
+	ls := &space.Decl{Pkg: "in", Name: "L" + id, Under: space.St(f("V", tInt), f("W", tInt))}
+	lt := &space.Decl{Pkg: "out", Name: "L" + id, Under: space.St(f("V", tInt), f("W", tInt))}
+	sc.Decls = []*space.Decl{ls, lt}
+	s0, t0 := space.N(ls), space.N(lt)
+	switch wrapMode {
+	case "wrapErrors":
+		sc.ConvLines = append(sc.ConvLines, "wrapErrors")
+		conv.Set.WrapErrors = true
+	case "wrapErrorsUsing":
+		sc.ConvLines = append(sc.ConvLines, "wrapErrorsUsing vx/werr")
+		conv.Set.WrapErrorsUsing = "vx/werr"
+		sc.Files = map[string]string{"werr/werr.go": werrSource}
+	}
+	lm := &model.Method{Name: "Leaf", Src: s0, Dst: t0, Set: conv.Set, Fields: map[string]*model.FieldCfg{}, HasErr: true, EnumMap: map[string]string{}}
+	var llines []string
+	fn := "Fk" + id
+	switch kind {
+	case "mapfunc":
+		llines = []string{"map V V | " + fn}
+		sc.FuncsSrc = fmt.Sprintf("func %s(s int) (int, error) {\n\tif s < 0 { return 0, &Boom{V: s} }\n\treturn s + 300, nil\n}\n", fn)
+		cust := &model.Custom{Name: fn, Src: tInt, Dst: tInt, Err: true, ArgsFmt: []string{"src"}}
+		lm.Fields["V"] = &model.FieldCfg{Source: "V", Fn: cust}
+		lm.NFieldSettings = 1
+		sc.Funcs[fn] = "conv." + fn
+	case "structmethod":
+		// the source has a method W2() (int, error) used for target field W
+		ls.Methods = []space.Method{{Name: "Vm", Result: tInt, Err: true, Body: "if r.V < 0 { return 0, &Boom{V: r.V} }; return r.V + 400, nil"}}
+		llines = []string{"map Vm V"}
+		lm.Fields["V"] = &model.FieldCfg{Source: "Vm"}
+		lm.NFieldSettings = 1
+	case "default":
+		llines = []string{"default " + fn}
+		sc.FuncsSrc = fmt.Sprintf("func %s(s %s) (%s, error) {\n\tif s.W < 0 { return %s{}, &Boom{V: s.W} }\n\treturn %s{V: 1, W: 2}, nil\n}\n", fn, s0.Go("conv"), t0.Go("conv"), t0.Go("conv"), t0.Go("conv"))
+		lm.Default = &model.Custom{Name: fn, Src: s0, Dst: t0, Err: true, ArgsFmt: []string{"src"}}
+		sc.Funcs[fn] = "conv." + fn
+	}
+	if kind == "structmethod" {
+		// Boom lives in package conv; the method is in package in: use a local error type there
+		ls.Methods[0].Body = "if r.V < 0 { return 0, &InBoom{V: r.V} }; return r.V + 400, nil"
+		sc.Files = mergeFiles(sc.Files, map[string]string{"in/boom.go": "package in\n\nimport \"fmt\"\n\ntype InBoom struct{ V int }\n\nfunc (b *InBoom) Error() string         { return fmt.Sprintf(\"inboom %d\", b.V) }\nfunc (b *InBoom) VerifSentinel() string { return \"inboom\" }\n"})
+	}
+	s, t := s0, t0
+	for i := len(nest) - 1; i >= 0; i-- {
+		var ds []*space.Decl
+		s, t, ds = nest[i].wrap(id, i, s, t)
+		sc.Decls = append(sc.Decls, ds...)
+	}
+	sc.ConvLines = append(sc.ConvLines, "enum:unknown @ignore")
+	conv.Set.EnumUnknown = "@ignore"
+	lm.Set = conv.Set
+	if len(nest) == 0 {
+		// the declared method itself is the test method
+		lm.Name = "Convert"
+		conv.Methods = []*model.Method{lm}
+		sc.Methods = []*ScMethod{{Name: "Convert", Params: "source " + s0.Go("conv"), Result: "(" + t0.Go("conv") + ", error)", Lines: llines, M: lm}}
+	} else {
+		top := &model.Method{Name: "Convert", Src: s, Dst: t, Set: conv.Set, Fields: map[string]*model.FieldCfg{}, HasErr: true}
+		conv.Methods = []*model.Method{top, lm}
+		sc.Methods = []*ScMethod{{Name: "Convert", Params: "source " + s.Go("conv"), Result: "(" + t.Go("conv") + ", error)", M: top},
+			{Name: "Leaf", Params: "source " + s0.Go("conv"), Result: "(" + t0.Go("conv") + ", error)", Lines: llines, M: lm}}
+	}
+	sc.Mode = "value,nomutate"
+	switch wrapMode {
+	case "wrapErrors":
+		sc.Mode += ",wraperrors"
+	case "wrapErrorsUsing":
+		sc.Mode += ",wrapusing"
+	}
+	if kind == "default" {
+		sc.Mode += ",nilkeeps"
+	}
+	return sc
+}
+
+func FallibleKindScenarios(tier string) []*Scenario {
+	var out []*Scenario
+	n := 60000
+	depth := 1
+	if tier == "thorough" {
+		depth = 2
+	}
+	for _, kind := range []string{"mapfunc", "structmethod", "default"} {
+		for _, wrap := range []string{"", "wrapErrors", "wrapErrorsUsing"} {
+			for _, path := range nestPaths(depth) {
+				n++
+				out = append(out, buildFallibleKind(fmt.Sprintf("%05d", n), kind, path, wrap))
+			}
 		}
 	}
 	return out
